@@ -52,7 +52,7 @@
      "every instance holds every defaulted attribute" that is not proved). *)
 From Coq Require Import List ZArith Bool Arith Lia.
 From SC Require Import Base.Res Inst.Heap Inst.ClassTable Inst.Model Inst.Framed Inst.FrameProofs
-  Inst.Reach Inst.SepProofs Props.C01 Props.C02 Inst.AtomicProofs Inst.SepMore Inst.SepMore2 Inst.SepMore3.
+  Inst.Reach Inst.SepProofs Props.C01 Props.C02 Inst.AtomicProofs Inst.SepMore Inst.SepMore2 Inst.SepMore3 Inst.SepMore4.
 Import ListNotations.
 Open Scope nat_scope.
 
@@ -274,6 +274,14 @@ Theorem C08_no_defaulted_attribute_removed :
   forall ct roots o s, kext ct s (snd (step ct roots o s)).
 Proof. exact step_kext. Qed.
 
+(* the guard on keywords as a computable predicate: no constructor keyword carries the UNCHANGED
+   sentinel (EMPTY and MISSING are harmless: the constructor then builds type() / uses the default) *)
+Definition kw_nub (kw : list (aid * val)) : bool := forallb (fun p => nub (snd p)) kw.
+Lemma kw_nub_ok kw : kw_nub kw = true -> kw_nu kw.
+Proof.
+  unfold kw_nub, kw_nu. rewrite forallb_forall, Forall_forall. intros H p Hp. apply nub_nu. auto.
+Qed.
+
 (* A successful constructor call returns an instance that holds every defaulted,
    init-enabled attribute of its class in its own dictionary (hd), provided no keyword is the
    sentinel UNCHANGED (see C08_unchanged_keyword_refuted) and the table meets the computable
@@ -427,7 +435,7 @@ Qed.
    a proof that the library never stores a reference to a cell that does not exist; in-place
    del / reset / with_<attr> / element helpers and attributes with dependants in the alphabet;
    instances obtained as copies; do_not_copy attributes. *)
-Theorem C08_peers_disjoint_history_partial :
+Theorem C08_peers_disjoint_history_if_no_dangling :
   forall ct, no_dnc_classes ct -> scalar_table ct -> tgb ct = true -> no_dnc_attrs ct ->
   forall ops s roots,
     ops_ok ct (length roots) [] ops -> run_wf ct s roots ops ->
@@ -440,6 +448,70 @@ Theorem C08_peers_disjoint_history_partial :
       forall z, reach (heap (fst (run_ops ct s roots ops))) li z ->
                 reach (heap (fst (run_ops ct s roots ops))) lj z -> False.
 Proof. intros ct H1 H2 H3 H4. exact (ctor_peers_disjoint ct H1 H2 H3 H4). Qed.
+
+(* The proviso discharged (proofs: coq/Inst/SepMore4.v, a bounds judgement over the whole model):
+   the library never stores a reference to a cell that does not exist.  `bj n m Q`: from a heap
+   without dangling references and with arguments below the watermark n, every function of Model.v
+   ends (Ok or Err) in such a heap, returning a value below the final heap size.  Hence for histories
+   whose arguments are scalars (`op_scalar`), started from a heap without dangling references, with
+   the class-level default objects below n0 and roots inside the heap, `run_wf` holds. *)
+Theorem C08_no_dangling_reference_is_ever_stored :
+  forall ct, scalar_table ct ->
+  forall n0, (forall c k a, lookup_cls ct c = Some k -> vb n0 (class_default k a)) ->
+  forall roots o s,
+    n0 <= length (heap s) -> wf_heap (heap s) -> Forall (vb (length (heap s))) roots ->
+    opb (length (heap s)) o ->
+    wf_heap (heap (snd (step ct roots o s))) /\
+    length (heap s) <= length (heap (snd (step ct roots o s))) /\
+    match fst (step ct roots o s) with
+    | Ok v => vb (length (heap (snd (step ct roots o s)))) v
+    | Err _ => True
+    end.
+Proof.
+  intros ct H1 n0 H2 roots o s Hn Hw Hr Ho.
+  destruct (step_bj ct H1 n0 H2 (length (heap s)) roots o Hn Hr Ho s (proj2 (wfn_wf s) Hw) (le_n _)) as (W & L & Q).
+  split; [apply wfn_wf; exact W|]. split; [exact L|exact Q].
+Qed.
+
+(* C08_peers_disjoint over histories, without the proviso; PARTIAL only in its alphabet:
+   constructor calls with scalar keywords, every helper called copy-on-write with scalar
+   arguments, deepcopy, argument objects of scalars, in-place scalar assignment on a
+   constructor-created instance (attribute without dependants). *)
+Theorem C08_peers_disjoint_history_partial :
+  forall ct, no_dnc_classes ct -> scalar_table ct -> tgb ct = true -> no_dnc_attrs ct ->
+  forall n0, (forall c k a, lookup_cls ct c = Some k -> vb n0 (class_default k a)) ->
+  forall ops s roots,
+    n0 <= length (heap s) -> wf_heap (heap s) -> Forall (vb (length (heap s))) roots ->
+    ops_ok ct (length roots) [] ops -> Forall (fun p => op_scalar (fst p)) ops ->
+    forall i j ci pi kwi fi cj pj kwj fj li lj,
+      nth_error ops i = Some (OpConstruct ci pi kwi, fi) ->
+      nth_error ops j = Some (OpConstruct cj pj kwj, fj) -> i <> j ->
+      nth (length roots + i) (snd (run_ops ct s roots ops)) VNone = VRef li ->
+      nth (length roots + j) (snd (run_ops ct s roots ops)) VNone = VRef lj ->
+      li <> lj /\
+      forall z, reach (heap (fst (run_ops ct s roots ops))) li z ->
+                reach (heap (fst (run_ops ct s roots ops))) lj z -> False.
+Proof.
+  intros ct H1 H2 H3 H4 n0 H5 ops s roots Hn Hw Hr Hok Hsc.
+  apply (ctor_peers_disjoint ct H1 H2 H3 H4 ops s roots Hok).
+  exact (run_wf_holds ct H2 n0 H5 ops s roots Hn Hw Hr Hsc).
+Qed.
+
+Example C08_peers_disjoint_partial_nonvacuous :
+  (forall c k a, lookup_cls exp_ct c = Some k -> vb 1 (class_default k a)) /\
+  wf_heap [OList [VInt 1]] /\ Forall (vb 1) [VRef 0] /\
+  ops_ok exp_ct 1 [] exp_ops /\ Forall (fun p => op_scalar (fst p)) exp_ops.
+Proof.
+  split; [|split; [|split; [|split]]].
+  - intros c k a H. unfold lookup_cls in H. apply find_some in H. destruct H as [[<-|[]] _].
+    unfold class_default. cbn [c_overrides assoc find option_map].
+    destruct (lookup_attr _ a) as [sp|] eqn:E; [|exact I].
+    apply lookup_attr_In in E. destruct E as [[<-|[<-|[]]] _]; simpl; [lia|exact I].
+  - apply wf_heapb_ok. reflexivity.
+  - repeat constructor.
+  - exact (proj1 (proj2 peers_disjoint_nonvacuous)).
+  - repeat constructor.
+Qed.
 
 (* the invariant itself, for any set T of tracked constructor results to start from *)
 Theorem C08_peers_invariant_preserved :
@@ -484,6 +556,9 @@ Print Assumptions C08_del_fresh_final_heap.
 Print Assumptions C08_reset_inplace_fresh_final_heap.
 Print Assumptions C08_reset_value_is_not_the_class_default.
 Print Assumptions C08_del_fresh_final_heap_nonvacuous.
-Print Assumptions C08_peers_disjoint_history_partial.
+Print Assumptions C08_peers_disjoint_history_if_no_dangling.
 Print Assumptions C08_peers_invariant_preserved.
 Print Assumptions C08_peers_disjoint_nonvacuous.
+Print Assumptions C08_no_dangling_reference_is_ever_stored.
+Print Assumptions C08_peers_disjoint_history_partial.
+Print Assumptions C08_peers_disjoint_partial_nonvacuous.
